@@ -5,6 +5,8 @@ from sa import controls as K
 from sa import effects as E
 from sa import excs as X
 from sa import paths as P
+from sa import optional as OPT
+from sa import speccov as SC
 
 
 def _t(rule_fn, **kw):
@@ -36,6 +38,7 @@ FLOORS = {
     "O2": 6, "O3": 20, "S1": 20,
     "X1": 5, "X2": 40, "X3": 6,
     "P1": 5, "P2": 5, "P3": 5, "P4": 2, "P5": 3, "P6": 9, "P7": 5,
+    "E7": 30, "U1": 5, "S2": 12, "S3": 15,
 }
 
 PROPERTIES = {}
@@ -142,6 +145,15 @@ prop(
         "counts (all n offered, at most k at a time), which are arithmetic over run-time values."),
     assumptions=[A_SPEC, A_AST],
 )
+
+
+def _e7_items(ctx):
+    r = OPT.rule_E7(ctx, functions=("conducting.WorkflowConductor.update_task_state",
+                                     "machines.TaskStateMachine.add_context_to_task_item_event",
+                                     "machines.TaskStateMachine.add_context_to_workflow_event"),
+                    only_keys=("items",))
+    r.scoped = True
+    return r
 
 
 ENGINE_MODS = ["conducting", "machines", "utils.dictionary", "utils.jsonify", "utils.context"]
@@ -254,7 +266,7 @@ prop(
 prop(
     "C07",
     anchor_modules=ENGINE_MODS + ["composers.native", "graphing"],
-    rules=[P.rule_P5, P.rule_P7, E.rule_F7],
+    rules=[P.rule_P5, P.rule_P7, E.rule_F7, _e7_items],
     controls=[K.ctl_join_always_ready, K.ctl_join_threshold, K.ctl_drop_join_check],
     explanation=(
         "Decides the structural clauses of the join barrier: the ready flag of a staged entry is "
@@ -286,6 +298,60 @@ prop(
         "with the retry record are in the same 'new status == retrying' block; the retry delay "
         "reaches the offer; retrying is entered only from a completed status by the retry "
         "command (T4e). NOT decided: the bound n+1 per visit across loops and reruns."),
+    assumptions=[A_ABS, A_AST],
+)
+
+def _e7_rerun(ctx):
+    r = OPT.rule_E7(ctx, functions=("conducting.WorkflowConductor._request_task_rerun",
+                                     "conducting.WorkflowConductor.request_workflow_rerun",
+                                     "conducting.WorkflowConductor._collapse_task_rerun_requests"))
+    r.scoped = True
+    return r
+
+
+def _f6_rerun(ctx):
+    r = E.rule_F6(ctx, entries=("conducting.WorkflowConductor.request_workflow_rerun",))
+    r.scoped = True
+    return r
+
+
+prop(
+    "C15",
+    anchor_modules=TABLE_MODS + ["specs.base", "specs.native.v1.models", "composers.native"],
+    rules=[_t(T.rule_T0), _t(T.rule_T1), _t(T.rule_T5), OPT.rule_E7, SC.rule_S2, SC.rule_S3,
+           OPT.rule_U1],
+    controls=[K.ctl_unguarded_staged_deref, K.ctl_unguarded_task_name, K.ctl_drop_detector,
+              K.ctl_untracked_property],
+    explanation=(
+        "Decides structural clauses on both sides. Soundness of acceptance: no internal error on "
+        "engine-generated events - every generated event name is an accepted one and both tables "
+        "are closed (T0, T1), event dispatch is total (T5), and values that may be absent "
+        "(results of accessors with a None path, optional keys of staged entries and records) "
+        "are dereferenced only under a presence test or at one of the reviewed sites whose "
+        "invariant is written down in reviewed_derefs.json (E7). Completeness of inspection: "
+        "inspect() runs and reports all four inspections, inspect_semantics runs every detect_* "
+        "method, every engine command name is reserved (S2); every spec property that can carry "
+        "an expression is in the class's _context_evaluation_sequence (S3); a task name read from "
+        "a transition reaches a KeyError-raising accessor only under a has_task / membership "
+        "guard, so inspection does not crash on the fault it must report (U1). NOT decided: "
+        "execution of every accepted definition under every history; completeness of the "
+        "regex-based variable extraction for every documented reference form."),
+    assumptions=[A_AST, "E7 trusts the reviewed table (9 entries, each with its invariant)"],
+)
+
+prop(
+    "C17",
+    anchor_modules=ENGINE_MODS,
+    rules=[_f6_rerun, _e7_rerun, E.rule_F4],
+    controls=[K.ctl_rerun_write_before_reject, K.ctl_unguarded_staged_deref],
+    explanation=(
+        "Decides the structural clauses of rerun: the two rejections of request_workflow_rerun "
+        "(workflow not completed; unknown task execution) precede every persistent write on "
+        "every path, so a rejected rerun has no effect (F6); the staged entry and records used "
+        "while preparing a rerun are dereferenced only when present (E7); the workflow status is "
+        "forced to resuming only in the rerun path, under the completed-status precondition "
+        "(F4). NOT decided: 're-executes exactly the requested tasks', convergence to the clean "
+        "outcome, 'never stuck after an accepted rerun' (twin runs over histories)."),
     assumptions=[A_ABS, A_AST],
 )
 
@@ -322,6 +388,11 @@ NOT_APPLICABLE = {
 PENDING = {}
 
 TECHNIQUE = {
+    "C15": "typestate closure of the event tables + optional-value (None / missing key) "
+           "dereference analysis + inspection wiring / coverage agreement + taint of unvalidated "
+           "task names (ast)",
+    "C17": "effect ordering (reject dominates write) and optional-value dereference analysis of "
+           "the rerun path",
     "C01": "provenance and guard-set analysis of get_next_tasks / update_task_state (ast, "
            "structured control dependence) + call-site classification from the resolved call graph",
     "C07": "guard-set and value-origin analysis of the join readiness code; must-follow check of "
